@@ -282,8 +282,10 @@ class RefFile:
                 else:
                     c["digest_ok"] = digest(h.chunk_hash_type, stored) == e["digest"]
                 if h.comp_type == 0:
-                    if e["clen"] == e["ulen"]:
-                        c["decodes"] = True; c["content"] = stored
+                    # stored uncompressed: the content is the stored bytes; a declared size that disagrees is
+                    # an inconsistency the reader may report or ignore (it still returns the original content)
+                    c["decodes"] = True; c["content"] = stored
+                    c["size_consistent"] = (e["clen"] == e["ulen"])
                 elif h.comp_type == 2:
                     if e["clen"] == 0:
                         if e["ulen"] == 0:
@@ -300,7 +302,11 @@ class RefFile:
         elif body_end <= len(self.buf):
             self.data_ok = digest(h.hash_type, self.buf[base:body_end]) == h.data_digest
         allc = all(c["present"] and c["digest_ok"] and c["decodes"] for c in self.chunks)
-        self.valid = h.ok and h.sealed and h.supported and not h.detached and allc and self.data_ok
+        self.valid_strict = h.ok and h.sealed and h.supported and allc and self.data_ok     # (the identifier may be either magic)
+        # a chunk without stored bytes carries no data: whether its index checksum is all zeros (as the format
+        # asks) does not affect the content, so the read path may ignore it
+        allc2 = all(c["present"] and (c["digest_ok"] or e["clen"] == 0) and c["decodes"] for c, e in zip(self.chunks, h.entries))
+        self.valid = h.ok and h.sealed and h.supported and allc2 and self.data_ok
         if all(c["decodes"] for c in self.chunks):
             self.content = b"".join(c["content"] for c in self.chunks[1:])
         self.body_end = body_end
